@@ -130,7 +130,7 @@ theorem no_promotion (s m d : Nat) (hs : s.testBit 7 = false) (hm : m.testBit 7 
 
 /-- a solid source is never promoted either (promotion needs a SAMPLES_COVER_CLIP flag, which only
     analyze_extent sets): source word without bits 23 and 24 -/
-theorem no_promotion' (s m d : Nat) (hs1 : s.testBit 23 = false) (hs2 : s.testBit 24 = false)
+theorem no_promotion_solid (s m d : Nat) (hs1 : s.testBit 23 = false) (hs2 : s.testBit 24 = false)
     (hm : m.testBit 7 = false) : promotionBlock s m d = (s, m, d) := by
   unfold promotionBlock
   have n1 : NEAREST_OPAQUE.testBit 23 = true := by decide
@@ -211,6 +211,44 @@ theorem admits_mono (e : Entry) (k k' : Key) (ho : k.op = k'.op) (hs : k.srcForm
   refine ⟨⟨⟨⟨⟨⟨by rw [← ho]; exact a1, by rw [← hs]; exact a2⟩, by rw [← hm]; exact a3⟩, by rw [← hd]; exact a4⟩,
     sub _ _ _ a5 fs⟩, sub _ _ _ a6 fm⟩, sub _ _ _ a7 fd⟩
 
+/-- The general relation (any source, e.g. a bits source that covers the clip — composite32 then adds
+    SAMPLES_COVER_CLIP flags the glyph loop does not have): with no opaque promotion and the operator
+    kept, composite32's key has the glyph loop's operator and formats and, word by word, at least
+    its flags. -/
+theorem composite32_key_subsumes_glyph_key (op : Nat) (src glyph dest : Img) (se me : Box32) (fs : Flags)
+    (hs : analyzeExtent src.extentImage se = .ok (true, fs))
+    (hg : analyzeExtent glyph.extentImage me = .ok (true, ⟨true, false⟩))
+    (hel : ((glyph.flags &&& FAST_PATH_IS_OPAQUE) == 0) = true)
+    (hprom : promotionBlock (src.flags ||| coverBits fs) (glyphFlags glyph) dest.flags =
+      (src.flags ||| coverBits fs, glyphFlags glyph, dest.flags))
+    (hop : optimizeOperator op (src.flags ||| coverBits fs) (glyphFlags glyph) dest.flags = op) :
+    ∃ d, composite32 ⟨op, src, some glyph, dest, se, me⟩ = .run d ∧
+      (keyOf d).op = op ∧ (keyOf d).srcFormat = src.code ∧ (keyOf d).maskFormat = glyph.code ∧
+      (keyOf d).destFormat = dest.code ∧ FlagsLe src.flags (keyOf d).srcFlags ∧
+      (keyOf d).maskFlags = glyphFlags glyph ∧ (keyOf d).destFlags = dest.flags ∧
+      ∀ e, admits e (glyphKey op src glyph dest) = true → admits e (keyOf d) = true := by
+  have hme : maskEntry (some glyph) = (glyph.code, glyph.flags) := by
+    simp only [maskEntry]; rw [if_pos hel]
+  have hcm : glyph.flags ||| coverBits ⟨true, false⟩ = glyphFlags glyph := by simp [coverBits, glyphFlags]
+  unfold composite32
+  simp only [hs, Option.map_some, analyzeExtentOpt, hg, hme, hcm, hprom, hop]
+  refine ⟨_, rfl, rfl, rfl, rfl, rfl, flagsLe_or _ _, rfl, rfl, fun e he => ?_⟩
+  exact admits_mono e (glyphKey op src glyph dest) _ rfl rfl rfl rfl (flagsLe_or _ _)
+    (by unfold FlagsLe; exact Nat.and_self _) (by unfold FlagsLe; exact Nat.and_self _) he
+
+/-- When the keys differ but the operator is the same, the two lookups may return different
+    functions; they render the same picture if every table entry refines the general path on what it
+    admits. `_partial`: `EntrySound` is C02's hypothesis (validated per entry by C02's sweep, not
+    proved); `general` is one function of the request, so this does not cover a rewritten operator
+    (F2a/F2b). -/
+theorem glyph_and_composite32_render_same_partial {Req Pic : Type} (run : Nat → Req → Pic)
+    (general : Req → Pic) (glyphKeyOf compositeKeyOf : Req → Key) (c : Chain)
+    (h1 : EntrySound run general glyphKeyOf c) (h2 : EntrySound run general compositeKeyOf c)
+    (hc : HasCatchAll c) (r : Req) :
+    dispatch run glyphKeyOf c r = dispatch run compositeKeyOf c r := by
+  rw [Pixman.Props.C02.render_eq_general run general glyphKeyOf c h1 hc r,
+    Pixman.Props.C02.render_eq_general run general compositeKeyOf c h2 hc r]
+
 /-- add_glyphs, same format: the key differs from the one of `pixman_image_composite32 (ADD, glyph,
     NULL, mask)` only by FAST_PATH_NO_ALPHA_MAP in the (absent) mask's word — `IS_OPAQUE` versus
     `IS_OPAQUE | NO_ALPHA_MAP`; every entry admitting add_glyphs' key admits composite32's.
@@ -244,6 +282,17 @@ theorem saturate_opaque_glyph_keys_differ :
   refine ⟨_, rfl, ?_⟩
   decide
 
+private def r565Src : Img :=
+  ⟨{ kind := .bits, format := 268567909, width := 45, height := 1 }, { repeat_ := 1 }, none⟩
+
+/-- F2b: the same with an opaque BITS source (r5g6b5, REPEAT_NORMAL): operator rewritten by
+    composite32 (13 ↦ 4), not by the glyph loop -/
+theorem saturate_opaque_bits_source_keys_differ :
+    ∃ d, composite32 ⟨13, r565Src, some x8Glyph, argbDest, ⟨0, 0, 5, 1⟩, ⟨0, 0, 5, 1⟩⟩ = .run d ∧
+      d.op = 4 ∧ (glyphKey 13 r565Src x8Glyph argbDest).op = 13 := by
+  refine ⟨_, rfl, ?_⟩
+  decide
+
 /-- non-vacuity of the positive theorem: an a8 glyph through an opaque solid source with OVER — all
     five hypotheses hold and the keys coincide -/
 example : ∃ d, composite32 ⟨3, solidWhite, some a8Glyph, argbDest, ⟨3, 4, 8, 15⟩, ⟨0, 0, 5, 11⟩⟩ = .run d ∧
@@ -252,7 +301,7 @@ example : ∃ d, composite32 ⟨3, solidWhite, some a8Glyph, argbDest, ⟨3, 4, 
     (by decide)
     (glyph_analyze a8Glyph ⟨0, 0, 5, 11⟩ rfl (by decide) (by decide) (by decide) (by decide) (by decide))
     (by decide)
-    (no_promotion' _ _ _ (by decide) (by decide) (by decide))
+    (no_promotion_solid _ _ _ (by decide) (by decide) (by decide))
     (by decide)
 
 example : solidWhite.code = PIXMAN_solid ∧ (glyphFlags a8Glyph).testBit 7 = false ∧
